@@ -306,6 +306,25 @@ def _walk_all(it):
         yield from _walk_all(c)
 
 
+def rule_x7(chk: Check):
+    """Sibling cross-check through time: Python rules that were CPython's own rule on the pinned tree still are."""
+    from .. import cpygram
+    cp = cpygram.cpython_grammar()
+    xg = repo.gram_x()
+    for name in cpygram.equal_rules():
+        chk.count("X7-cpython-sibling")
+        if name not in xg.rules:
+            chk.fail("X7-cpython-sibling", name, repo.GRAM_X, f"Python rule `{name}` has disappeared from the grammar")
+            continue
+        if name not in cp.rules:
+            raise AnalysisError(f"reference rule {name} missing from the vendored CPython grammar")
+        a, b = cpygram.rule_sig(xg.rules[name]), cpygram.rule_sig(cp.rules[name])
+        chk.require(a == b, "X7-cpython-sibling", name, str(xg.rules[name].pos),
+                    f"`{name}` was structurally CPython's own rule and no longer is — {cpygram.describe_diff(a, b)}: text in the Python "
+                    f"lexicon is now accepted or parsed differently from CPython")
+    chk.floor("X7-cpython-sibling", 150)
+
+
 def run(chk: Check):
     chk.explanation = (
         "Decides the mechanisms that keep the xonsh extensions behind xonsh-only lexemes and make rejection total: (X1) every "
@@ -314,8 +333,10 @@ def run(chk: Check):
         "lie in a rule reachable only through such gates (least fixpoint); path literals are gated by the token's own prefix; (X2) "
         "start rules end in ENDMARKER; (X3) a None result of the start rule always becomes a raised SyntaxError; (X4) nothing "
         "accepts ERRORTOKEN and wildcard token items live only in confined rules; (X5) keyword tables equal CPython's; (X6) "
-        "diagnostic rules are gated. Whether a *Python* alternative became too permissive is language inclusion against CPython "
-        "and is not decided.")
+        "diagnostic rules are gated; (X7) the 190 grammar rules that are structurally CPython 3.11's own rules on the pinned tree "
+        "(vendored Grammar/python.gram as sibling implementation) still are — a dropped look-ahead, a reordered or added alternative "
+        "or an extra optional in one of them is reported. For the rules that already differ from CPython's, whether they became too "
+        "permissive is language inclusion against CPython and is not decided.")
     chk.trusted = ["token.EXACT_TOKEN_TYPES / keyword tables of the running interpreter", "xpverif.pyir", "xpverif.irtools (must-consume, adjacency)"]
     chk.assumptions = ["the CFG reading over-approximates what the PEG accepts, so an adjacent pair absent from it is absent from Python"]
     ir = repo.ir_x()
@@ -329,5 +350,6 @@ def run(chk: Check):
     rule_x4b(chk, ir, chk.units.get("confined_rules", []), live)
     rule_x5(chk, ir)
     rule_x6(chk, ir)
+    rule_x7(chk)
     chk.floor("X2-endmarker", 2)
     chk.floor("X4-wildcards-confined", 3)
